@@ -238,5 +238,128 @@ class CommonPrefix(Bounded):
         return True
 
 
+class AbsolutePathLaws(Bounded):
+    """The same laws for absolute and drive-prefixed forms (`/…`, `C:/…`, `C:\\…`): normal form (`..` at the top stays
+    at the top), separator-agnostic, JSON round trip, hash, and parent / append / basename as inverses."""
+    target = 'bfg9000/platforms/basepath.py::BasePath.parent'
+    properties = ('C12',)
+    reason = PathLaws.reason
+    PREFIXES = ['/', 'C:/', 'C:\\']
+
+    def cases(self):
+        return ['posix', 'windows']
+
+    def native_inputs(self, case, alphabet, maxlen, rng, extra=0):
+        for pre in self.PREFIXES:
+            for n in range(0, 4):
+                for t in _it.product(COMPS, repeat=n):
+                    yield {'prefix': pre, 'comps': list(t)}
+
+    def native_check(self, case, raw):
+        P = PosixPath if case == 'posix' else WindowsPath
+        pre, comps = raw['prefix'], raw['comps']
+        s = pre + '/'.join(comps)
+        if s.startswith('//') or s.startswith('\\\\'):
+            return None         # two leading separators start a UNC share name (`//server/share`): not this law set
+        want = []
+        for c in comps:
+            if c in ('', '.'):
+                continue
+            if c == '..':
+                if want:
+                    want.pop()
+            else:
+                want.append(c)
+        top = 'C:/' if pre.startswith('C:') else '/'
+        try:
+            p = P(s, Root.srcdir)
+        except ValueError as e:
+            return self.fail(case, raw, 'absolute_path_accepted', string=s, error=str(e))
+        if p.root != Root.absolute or p.suffix != top + '/'.join(want):
+            return self.fail(case, raw, 'normalised', string=s, suffix=p.suffix, expected=top + '/'.join(want))
+        if P(s.replace('/', '\\'), Root.srcdir) != p or P(s.replace('\\', '/'), Root.srcdir) != p:
+            return self.fail(case, raw, 'separator_agnostic', string=s)
+        j = P.from_json(p.to_json())
+        if j != p or j.directory != p.directory or hash(j) != hash(p):
+            return self.fail(case, raw, 'json_round_trip', string=s, json=p.to_json(), back=repr(j))
+        if want:
+            try:
+                par = p.parent()
+            except ValueError as e:
+                return self.fail(case, raw, 'parent_of_a_non_root_path_exists', string=s, error=str(e))
+            if par.suffix != top + '/'.join(want[:-1]) or not par.directory:
+                return self.fail(case, raw, 'parent_is_the_enclosing_directory', string=s, parent=par.suffix)
+            if p.basename() != want[-1] or par.append(p.basename()) != p:
+                return self.fail(case, raw, 'parent_append_basename', string=s, parent=par.suffix, basename=p.basename())
+        return True
+
+
+class TreeFunctions(Bounded):
+    """commonprefix / uniquetrees over absolute paths, drive roots and several kinds of root: a true common ancestor
+    (or None when there is none) and a minimal covering set."""
+    target = 'bfg9000/path.py::uniquetrees'
+    properties = ('C12',)
+    reason = CommonPrefix.reason if False else 'min/max and sort over lists of component lists: runtime contract only'
+
+    POOL = [('/', 'absolute'), ('/a', 'absolute'), ('/a/b', 'absolute'), ('/c/d', 'absolute'), ('C:/', 'absolute'),
+            ('C:/a', 'absolute'), ('D:/a', 'absolute'), ('a', 'srcdir'), ('a/b', 'srcdir'), ('a', 'builddir'),
+            ('a/b', 'prefix'), ('', 'srcdir'), ('a.b', 'srcdir'), ('', 'prefix')]
+
+    def native_inputs(self, case, alphabet, maxlen, rng, extra=0):
+        for n in (1, 2, 3):
+            for t in _it.combinations(range(len(self.POOL)), n):
+                yield {'paths': [list(self.POOL[i]) for i in t]}
+
+    @staticmethod
+    def key(p):
+        """(kind of root, components) with the top of an absolute tree as its first component"""
+        s = p.suffix
+        if p.root == Root.absolute:
+            bits = [b for b in s.split('/') if b] if not s.startswith('/') else [''] + [b for b in s.split('/') if b]
+        else:
+            bits = s.split('/') if s else []
+        return (type(p.root).__name__, p.root.name), bits
+
+    def native_check(self, case, raw):
+        roots = {'absolute': Root.absolute, 'srcdir': Root.srcdir, 'builddir': Root.builddir, 'prefix': InstallRoot.prefix}
+        ps = [PosixPath(s, roots[r]) for s, r in raw['paths']]
+        keys = [self.key(p) for p in ps]
+        # ---- commonprefix
+        same_root = len({k[0] for k in keys}) == 1
+        bits = [k[1] for k in keys]
+        n = 0
+        while all(len(b) > n for b in bits) and len({b[n] for b in bits}) == 1:
+            n += 1
+        common = bits[0][:n]
+        is_abs = ps[0].root == Root.absolute
+        exists = same_root and (not is_abs or n >= 1)
+        try:
+            got = bpath.commonprefix(ps)
+        except ValueError as e:
+            return self.fail(case, raw, 'commonprefix_returns_a_common_ancestor_or_none', error=str(e), expected=common if exists else None)
+        if exists:
+            if got is None or self.key(got) != (keys[0][0], common):
+                return self.fail(case, raw, 'commonprefix_returns_a_common_ancestor_or_none',
+                                 got=None if got is None else got.suffix, expected=common)
+        elif got is not None:
+            return self.fail(case, raw, 'commonprefix_returns_a_common_ancestor_or_none', got=got.suffix, expected=None)
+        # ---- uniquetrees
+        ut = bpath.uniquetrees(ps)
+        uk = [self.key(u) for u in ut]
+
+        def covers(a, b):
+            return a[0] == b[0] and b[1][:len(a[1])] == a[1]
+        for k in keys:
+            if not any(covers(u, k) for u in uk):
+                return self.fail(case, raw, 'uniquetrees_covers_every_input', trees=[(u.root.name, u.suffix) for u in ut])
+        for i, u in enumerate(uk):
+            for j, v in enumerate(uk):
+                if i != j and covers(u, v):
+                    return self.fail(case, raw, 'uniquetrees_minimal', trees=[(x.root.name, x.suffix) for x in ut])
+        if any(u not in keys for u in uk):
+            return self.fail(case, raw, 'uniquetrees_returns_given_paths', trees=[(x.root.name, x.suffix) for x in ut])
+        return True
+
+
 def registry():
-    return [EqHash(), Hash(), ToJson(), PathLaws(), InstallChain(), CommonPrefix()]
+    return [EqHash(), Hash(), ToJson(), PathLaws(), AbsolutePathLaws(), InstallChain(), CommonPrefix(), TreeFunctions()]
